@@ -213,6 +213,28 @@ class Interp:
                 self.ev(st.value, env, module)
             elif isinstance(st, ast.Pass):
                 continue
+            elif isinstance(st, ast.AnnAssign) and isinstance(st.target, ast.Name) and st.value is not None:
+                env[st.target.id] = self.ev(st.value, env, module)
+            elif isinstance(st, ast.Match):
+                subj = self.ev(st.subject, env, module)
+                for case in st.cases:
+                    pat = case.pattern
+                    hit = None
+                    if isinstance(pat, ast.MatchValue):
+                        hit = self.ev(pat.value, env, module) == subj
+                    elif isinstance(pat, ast.MatchSingleton):
+                        hit = subj is pat.value
+                    elif isinstance(pat, ast.MatchAs) and pat.pattern is None:
+                        hit = True
+                        if pat.name:
+                            env[pat.name] = subj
+                    elif isinstance(pat, ast.MatchOr) and all(isinstance(p_, ast.MatchValue) for p_ in pat.patterns):
+                        hit = any(self.ev(p_.value, env, module) == subj for p_ in pat.patterns)
+                    if hit is None:
+                        raise Undecided("match pattern `%s`" % ast.unparse(pat))
+                    if hit and (case.guard is None or self.truth(self.ev(case.guard, env, module))):
+                        self.block(case.body, env, module)
+                        break
             else:
                 raise Undecided("statement `%s`" % ast.unparse(st)[:50])
 
@@ -333,6 +355,14 @@ class Interp:
                 return c
             raise Undecided("%s.%s" % (base.name, name))
         if isinstance(base, tuple) and base and base[0] == "cls":
+            if self.prog.lookup(base[1], name) is None:
+                # a class-level constant (a lookup table hoisted out of the method)
+                a = self.prog.lookup_attr(base[1], name)
+                if a is not None:
+                    c = self.prog.const(a[1], a[0].module, None, a[0])
+                    if not isinstance(c, Unknown):
+                        return c
+                raise Undecided("%s.%s" % (base[1].name, name))
             return BoundMethod(base[1], name)
         if base is None:
             raise Raised("AttributeError")
